@@ -252,20 +252,23 @@ def coqc_file(path, timeout=600):
 
 
 def print_assumptions(prop):
-    """Re-compile Props/<prop>.v on its own and return (ok, {theorem: assumptions-text}, raw)."""
-    src = os.path.join(COQ, 'Props', prop + '.v')
-    os.makedirs(os.path.join(work_dir(prop), 'props'), exist_ok=True)
-    rc, out = _run(['coqc', '-q', '-R', COQ, 'Exactly', '-w', '-notation-overridden,-deprecated',
-                    '-o', os.path.join(work_dir(prop), 'props', prop + '.vo'), src], 900, cwd=COQ)
-    if rc != 0:
-        return False, {}, out
-    thms = re.findall(r'^\s*Print Assumptions\s+([A-Za-z0-9_\']+)\.', open(src).read(), re.M)
-    blocks = re.split(r'(?=^Closed under the global context|^Axioms:|^Section Variables:)', out, flags=re.M)
-    blocks = [b.strip() for b in blocks if b.strip().startswith(('Closed under', 'Axioms:', 'Section Variables:'))]
-    res = {}
-    for i, t in enumerate(thms):
-        res[t] = blocks[i] if i < len(blocks) else '?'
-    return True, res, out
+    """Re-compile Props/<prop>.v (and the property's additional Props files) on their own and return
+    (ok, {theorem: assumptions-text}, raw)."""
+    res, raws = {}, []
+    for name in [prop] + list(EXTRA_PROPS.get(prop, [])):
+        src = os.path.join(COQ, 'Props', name + '.v')
+        os.makedirs(os.path.join(work_dir(prop), 'props'), exist_ok=True)
+        rc, out = _run(['coqc', '-q', '-R', COQ, 'Exactly', '-w', '-notation-overridden,-deprecated',
+                        '-o', os.path.join(work_dir(prop), 'props', name + '.vo'), src], 900, cwd=COQ)
+        raws.append(out)
+        if rc != 0:
+            return False, {}, out
+        thms = re.findall(r'^\s*Print Assumptions\s+([A-Za-z0-9_\']+)\.', open(src).read(), re.M)
+        blocks = re.split(r'(?=^Closed under the global context|^Axioms:|^Section Variables:)', out, flags=re.M)
+        blocks = [b.strip() for b in blocks if b.strip().startswith(('Closed under', 'Axioms:', 'Section Variables:'))]
+        for i, t in enumerate(thms):
+            res[t] = blocks[i] if i < len(blocks) else '?'
+    return True, res, '\n'.join(raws)
 
 
 STDLIB_AXIOMS_ALLOWED = (
@@ -299,9 +302,12 @@ def hygiene(files=None):
     return bad
 
 
+EXTRA_PROPS = {}  # property -> additional Props files (composition theorems), set by main_check from the module
+
+
 def deps_of(prop):
-    """Transitive dependencies of Props/<prop>.v inside coq/ (by scanning Require lines)."""
-    seen, todo = [], ['Props/%s.v' % prop]
+    """Transitive dependencies of Props/<prop>.v (and the property's additional Props files) inside coq/."""
+    seen, todo = [], ['Props/%s.v' % prop] + ['Props/%s.v' % x for x in EXTRA_PROPS.get(prop, [])]
     while todo:
         f = todo.pop()
         if f in seen or not os.path.exists(os.path.join(COQ, f)):
@@ -488,6 +494,7 @@ def main_check(prop, module, argv):
     seed = int(os.environ.get('VERIF_SEED', '20260926'))
     t0 = time.time()
     ctx = Ctx(prop, args.tier, seed)
+    EXTRA_PROPS[prop] = list(getattr(module, 'EXTRA_PROPS', []))
     if args.replay:
         return module.replay(ctx, json.load(open(args.replay)))
     shutil.rmtree(ctx.work, ignore_errors=True)
